@@ -60,15 +60,18 @@ def run(chk, replay=None):
     # with an error; a segment reached a receiver it was not addressed to); the life-cycle clauses are
     # reported by bin/extras as observations
     import random
-    r = vlib.run_tlc("net/MuxerApi", cfg="MuxerApiThorough.cfg" if thorough else "MuxerApi.cfg", workers=8,
-                     timeout=1500, deadlock=False)
+    if thorough:   # the meta-properties over all histories of 5 operations (no behaviours emitted)
+        r = vlib.run_tlc("net/MuxerApi", cfg="MuxerApiThorough.cfg", workers=8, timeout=1500, deadlock=False)
+        vlib.tlc_must_pass(r, "MuxerApiThorough")
+        chk.add_tlc("MuxerApiThorough", r)
+    r = vlib.run_tlc("net/MuxerApi", cfg="MuxerApi.cfg", workers=8, timeout=1500, deadlock=False)
     vlib.tlc_must_pass(r, "MuxerApi")
     chk.add_tlc("MuxerApi", r)
     rows = [json.loads(json.loads(m.group(1))) for m in (vlib._RE_BEH.match(l) for l in r.out.splitlines()) if m]
     if not rows:
         raise vlib.MachineryError("MuxerApi printed no behaviours")
     random.Random(chk.seed).shuffle(rows)
-    rows = rows[: (8000 if thorough else 1200)]
+    rows = rows[: (len(rows) if thorough else 1200)]
     bf = os.path.join(out, "api.ndjson")
     vlib.write_ndjson(bf, rows)
     vlib.run_driver(chk, vlib.go_build("muxapi"), ["run", bf], timeout=1500,
